@@ -169,9 +169,11 @@ RULE = ('a case is one multi-session history: 2-4 connections on the dict backen
 def run(ctx) -> None:
     ctx.rule = RULE
     ctx.assumptions += base.ASSUMPTIONS
-    ctx.check_proofs(['Store/StoreCheck'])
+    ctx.check_proofs(['Store/StoreCheck', 'Store/NsCheck'])
     clauses = SC.C02_CLAUSES
-    evals = [base.section_witnesses(ctx, clauses, WITNESSES), section_random(ctx, clauses)]
+    from .. import store_ns as NS
+    evals = [base.section_namespace(ctx, NS.C02_NS_CLAUSES)]
+    evals += [base.section_witnesses(ctx, clauses, WITNESSES), section_random(ctx, clauses)]
     evals += base.section_exhaustive(ctx, clauses)
     evals += base.section_maildir(ctx, clauses, WITNESSES)
     base.section_windows(ctx, clauses)
